@@ -63,6 +63,11 @@ pub fn based_files(corpus: bool) -> Vec<Based> {
         let e = gen::d1(&Fmt::Indexed(4)).encode_full(true);
         v.push(Based { name: "d1i".to_string(), bytes: e.bytes, fields: e.fields });
     }
+    {
+        // every payload above 64 KiB: size fields sit next to the buffer-growth thresholds
+        let e = gen::big().encode_full(true);
+        v.push(Based { name: "big".to_string(), bytes: e.bytes, fields: e.fields });
+    }
     if corpus {
         for n in ["basic-16x16", "tilemap_indexed", "user_data", "linked_cels", "slice", "palette", "256_color_old_palette_chunk", "layers_and_tags", "tilemap_multi", "indexed"] {
             if let Ok(b) = std::fs::read(format!("/repo/tests/data/{}.aseprite", n)) {
@@ -123,13 +128,36 @@ pub fn m1(bases: &[Based], all_values: bool) -> Vec<InputFam> {
 pub fn m2(bases: &[Based], all_pairs: bool) -> Vec<InputFam> {
     let mut out = Vec::new();
     for b in bases {
-        let mut singles: Vec<(String, Vec<u8>)> = Vec::new();
-        for f in &b.fields {
-            for v in field_values(f) {
-                singles.push((format!("{} {}={}", b.name, f.label(), v), patch(&b.bytes, f, v)));
+        // singles, generated lazily (a base may be hundreds of KB)
+        {
+            let fields = Arc::new(b.fields.clone());
+            let bytes = Arc::new(b.bytes.clone());
+            let mut idx: Vec<(u32, u64)> = Vec::new();
+            for (fi, f) in fields.iter().enumerate() {
+                for v in field_values(f) {
+                    idx.push((fi as u32, v));
+                }
             }
+            let idx = Arc::new(idx);
+            let (f2, b2, i2) = (fields.clone(), bytes.clone(), idx.clone());
+            let (f3, i3, nm) = (fields.clone(), idx.clone(), b.name.clone());
+            out.push(InputFam {
+                name: format!("M2-field-{}", b.name),
+                what: format!("{}: each of {} recorded fields set to every value of its boundary alphabet (all 256 / B16 / B32)", b.name, b.fields.len()),
+                n: idx.len(),
+                gen: Box::new(move |k| {
+                    let (fi, v) = i2[k];
+                    patch(&b2, &f2[fi as usize], v)
+                }),
+                label: Box::new(move |k| {
+                    let (fi, v) = i3[k];
+                    format!("{} {}={}", nm, f3[fi as usize].label(), v)
+                }),
+            });
         }
-        out.push(fam(&format!("M2-field-{}", b.name), &format!("{}: each of {} recorded fields set to every value of its boundary alphabet (all 256 / B16 / B32)", b.name, b.fields.len()), singles));
+        if b.bytes.len() > 100_000 {
+            continue;
+        }
         let st: Vec<&Field> = b.fields.iter().filter(|f| all_pairs || structural(f)).collect();
         let fields = Arc::new(st.iter().map(|f| (*f).clone()).collect::<Vec<_>>());
         let bytes = Arc::new(b.bytes.clone());
@@ -607,6 +635,9 @@ pub fn m6() -> InputFam {
 pub fn m4(bases: &[Based]) -> Vec<InputFam> {
     let mut out = Vec::new();
     for b in bases {
+        if b.bytes.len() > 100_000 {
+            continue;
+        }
         let bytes = Arc::new(b.bytes.clone());
         let nm = b.name.clone();
         let by = bytes.clone();
@@ -623,11 +654,11 @@ pub fn all_families(tier: Tier) -> Vec<InputFam> {
     let n_m1 = if thorough { 5 } else { 3 };
     v.extend(m1(&gen_bases[..n_m1], true));
     if thorough {
-        v.extend(m1(&bases[5..], false));
+        v.extend(m1(&bases[6..], false));
     }
     v.extend(m2(&gen_bases, false));
     if thorough {
-        v.extend(m2(&bases[5..], false).into_iter().filter(|f| f.name.starts_with("M2-field")));
+        v.extend(m2(&bases[6..], false).into_iter().filter(|f| f.name.starts_with("M2-field")));
         v.extend(m2(&gen_bases[..1], true).into_iter().filter(|f| f.name.starts_with("M2-pairs")).map(|mut f| {
             f.name = format!("{}-allfields", f.name);
             f
